@@ -180,6 +180,11 @@ def _lattice_cases(r, ranges, label, stride=1, phase=0):
                    last=(k0 + n >= n_total), tag='lattice-step')
 
 
+EXPLICIT_FORMATS = {'explicit-format-T': '%Y-%m-%dT%H:%M:%S.%f', 'explicit-format-dashes': '%Y-%m-%dT%H-%M-%S-%f',
+                    'explicit-format-compact': '%Y%m%d%H%M%S%f', 'explicit-format-fraction-first': '%f %d/%m/%Y %H:%M:%S',
+                    'explicit-format-whole-seconds': '%Y/%m/%d %H:%M:%S'}
+
+
 def cases(tier, seed):
     quick = tier == 'quick'
     windows = _windows(tier)
@@ -429,8 +434,13 @@ def judge_ms(seq, n_full, CC, h, tag):
         variants = R.string_variants(us) if full else R.string_variants(us)[:1]
         if full:
             variants = variants + [('explicit-format-T', ref_nv.isoformat(timespec='microseconds'))]
+            # explicit format= keyword with layouts other than the default ones (the fraction after '-', no separators at all,
+            # a fraction in front, whole seconds only)
+            variants = variants + [(v_, ref_nv.strftime(EXPLICIT_FORMATS[v_])) for v_ in ('explicit-format-dashes', 'explicit-format-compact', 'explicit-format-fraction-first')]
+            if us % 1000000 == 0:
+                variants = variants + [('explicit-format-whole-seconds', ref_nv.strftime(EXPLICIT_FORMATS['explicit-format-whole-seconds']))]
         for vname, s in variants:
-            kw = dict(format='%Y-%m-%dT%H:%M:%S.%f') if vname == 'explicit-format-T' else {}
+            kw = dict(format=EXPLICIT_FORMATS[vname]) if vname in EXPLICIT_FORMATS else {}
             nev += 1
             try:
                 Ds = sp_dt(s, **kw)
